@@ -57,6 +57,8 @@ type Disk struct {
 	Fault func(class, op, key string, idx int) error
 	// Observe is called (under no lock) after each successful mutation entry.
 	Observe func(e Entry, idx int)
+	// FaultBatchOps makes Delete on a batch a fault point (and park point) of its own
+	FaultBatchOps bool
 
 	reads, writes int
 	blackhole     bool
@@ -299,6 +301,12 @@ func (b *batch) Put(ctx context.Context, key ds.Key, value []byte) error {
 }
 
 func (b *batch) Delete(ctx context.Context, key ds.Key) error {
+	if b.d.FaultBatchOps {
+		// a batch may refuse an operation (a transaction that is full, a closed handle)
+		if err := b.d.pre("write", "batch-del", key.String()); err != nil {
+			return err
+		}
+	}
 	b.mu.Lock()
 	b.ops[key.String()] = KV{Del: true, Key: key.String()}
 	b.mu.Unlock()
